@@ -7,7 +7,7 @@
     handling (slot per cached property, generated `__getattr__`, the functions remembered for the cell
     rewrite), `slot_names` (own names minus inherited names minus re-used base slots, plus
     `_attrs_cached_hash`), `__slots__`, `__qualname__`, and the closure-cell rewriting loop exactly as
-    written: plain functions, the `__func__` of classmethods / staticmethods, *only the getter* of
+    written: plain functions, the `__func__` of classmethods / staticmethods, getter, setter and deleter of
     properties, the cached-property functions and the shadowed `__getattr__`;
   * `_make_cached_property_getattr` as a two-state machine per (instance, name);
   * `_ClassBuilder.build_class`: the `__attrs_init_subclass__` call.
@@ -184,18 +184,11 @@ def existingSlot (mro : List Base) (n : String) : Option Nat := existingSlotFrom
 
 def weakrefInherited (c : Case) : Bool := c.mro.any (·.hasWeakref)
 
-/-- `getattr(self._cls, "__slots__", ())`: the body's own, else the nearest base's -/
-def resolvedSlots (c : Case) : List String :=
-  match c.bodySlots with
-  | some s => s
-  | none =>
-    match c.mro.find? (·.slots.isSome) with
-    | some b => b.slots.getD []
-    | none => []
-
+/-- the weakref rule (after `fix: … K08b`): `weakref_slot` is on, no field is called `__weakref__`, and no class
+    of the MRO provides one.  (A `__weakref__` listed in the body's own `__slots__` does not count: that tuple is
+    rebuilt.) -/
 def addsWeakref (c : Case) : Bool :=
-  c.weakrefSlot && !(resolvedSlots c).contains "__weakref__" && !(attrNames c).contains "__weakref__"
-    && !weakrefInherited c
+  c.weakrefSlot && !(attrNames c).contains "__weakref__" && !weakrefInherited c
 
 /-- `names` after the weakref rule -/
 def names1 (c : Case) : List String := attrNames c ++ (if addsWeakref c then ["__weakref__"] else [])
@@ -260,13 +253,13 @@ def optIds : Option Fn → List CellId
   | none => []
 
 /-- the closure cells the loop looks at for one item: `item.__func__.__closure__` for class/static methods,
-    `item.fget.__closure__` for properties, `item.__closure__` otherwise (None for everything that is not a
+    the closures of `fget`, `fset` and `fdel` for properties (after `fix: … K08a`), `item.__closure__` otherwise (None for everything that is not a
     plain function) -/
 def entryCells : Entry → List CellId
   | .orig (.fn f) => f.ids
   | .orig (.cm f) => f.ids
   | .orig (.sm f) => f.ids
-  | .orig (.prop g _ _) => optIds g
+  | .orig (.prop g s d) => optIds g ++ optIds s ++ optIds d
   | .genGetattr hasCell => if hasCell then [.gen] else []
   | _ => []
 
